@@ -2,6 +2,7 @@ package main
 
 import (
 	"bytes"
+	"context"
 	"encoding/json"
 	"errors"
 	"fmt"
@@ -284,6 +285,95 @@ func init() {
 					ent = c12Entries
 				}
 				c12One(c, in, ent, jail)
+			})
+		}
+		// Part 1b2: tokens of Markdown and HTML syntax that a parser might start to recognise (comments, fences, emphasis,
+		// links, entities, escapes), every sequence of up to 4 tokens as the text of an item and of a nested item
+		mdTokens := []string{"<!--", "-->", "```", "**", "[", "](", ")", "<", ">", "&amp;", "\\", "|", "~~", "`", "$", "{{", "}}", "a", " "}
+		maxM := 3
+		if c.Thorough() {
+			maxM = 4
+		}
+		c.Bound("max_len_markup_tokens", fmt.Sprint(maxM))
+		for L := 1; L <= maxM && !c.Expired(); L++ {
+			enum.Tuples(L, len(mdTokens), func(t []int) {
+				if !c.Take() || c.Expired() {
+					return
+				}
+				txt := ""
+				for _, x := range t {
+					txt += mdTokens[x]
+				}
+				if strings.TrimSpace(txt) == "" {
+					return
+				}
+				c.StateN(1)
+				c.Inc("markup_token_inputs")
+				ent := noMk
+				if L <= 2 {
+					ent = c12Entries
+				}
+				c12One(c, "- r\n  - "+txt+"\n", ent, jail)
+				c12One(c, "- "+txt+"\n  - k\n", noMk[:3], jail)
+			})
+		}
+		// Part 1c: the size sweep (enum/size.go): documents of every width and depth up to the bound (and next to the powers of
+		// two beyond), well-formed and with a malformed last line, through every entry point (the mkdir entries on every
+		// eighth size: they work on the file system)
+		{
+			upTo, far, deepTo, deepFar := 300, 1030, 130, 260
+			if c.Thorough() {
+				upTo, far, deepTo, deepFar = 1100, 2100, 300, 520
+			}
+			c.Bound("size_sweep_width_every_integer_up_to", fmt.Sprint(upTo))
+			c.Bound("size_sweep_depth_every_integer_up_to", fmt.Sprint(deepTo))
+			perSize := map[string]int{}
+			sweep := func(sh enum.SizeShape) {
+				k := fmt.Sprint(sh.Tag[:4], sh.Size)
+				if perSize[k]++; perSize[k] > 8 {
+					return // eight shapes per size are enough for "returns, does not crash"
+				}
+				if !c.Take() || c.Expired() {
+					return
+				}
+				doc := enum.Spell(sh.D, sh.Names, enum.Spelling{Unit: "\t", Bullets: []byte("-")})
+				c.StateN(1)
+				c.Nontrivial()
+				c.Inc("size_sweep_documents")
+				ent := noMk
+				if sh.Size%8 == 0 {
+					ent = c12Entries
+				}
+				c12One(c, doc, ent, jail)
+				switch perSize[k] % 3 {
+				case 0:
+					c12One(c, doc+"   x\n", noMk, jail)
+				case 1:
+					c12One(c, doc+strings.Repeat("\t", sh.D[len(sh.D)-1]+1)+"- over-nested\n", noMk, jail)
+				}
+			}
+			enum.DeepShapes(enum.Sizes(deepTo, deepFar), sweep)
+			enum.WideShapes(enum.Sizes(upTo, far), sweep)
+			enum.TwinShapes(sweep)
+			// wide AND wide (W children with W children each), real Mkdir and Verify with the massive option: they return
+			enum.SquareShapes(enum.Sizes(12, 130), func(sh enum.SizeShape) {
+				if !c.Take() || c.Expired() {
+					return
+				}
+				doc := enum.Spell(sh.D, sh.Names, enum.Spelling{Unit: "  ", Bullets: []byte("-")})
+				c.StateN(1)
+				c.Inc("square_documents")
+				j := fsx.NewJail("c12sq")
+				var e1, e2 error
+				pan := guardMaybeMassive(true, func() {
+					e1 = gtree.MkdirFromMarkdown(strings.NewReader(doc), gtree.WithTargetDir(j.Target), gtree.WithMassive(context.Background()))
+					e2 = gtree.VerifyFromMarkdown(strings.NewReader(doc), gtree.WithTargetDir(j.Target), gtree.WithMassive(context.Background()), gtree.WithStrictVerify())
+				})
+				j.Remove()
+				c.Eval()
+				if pan != "" {
+					c.Violation("C12|hang-or-panic|massive-mkdir-verify|wide-and-wide", fmt.Sprintf("root with %d children of %d children each: %s (mkdir err=%v verify err=%v)", sh.Size, sh.Size, pan, e1, e2), sh.Size, nil)
+				}
 			})
 		}
 		// Part 2: every single-byte insertion / deletion / replacement in seed documents
